@@ -44,6 +44,18 @@ fn main() {
                 writeln!(out, "{}", gram::unescape_cmd(&line)).unwrap();
             }
         }
+        "linecol" => {
+            for line in stdin.lock().lines() {
+                let line = line.unwrap();
+                writeln!(out, "{}", gram::linecol(&line)).unwrap();
+            }
+        }
+        "unicode-ranges" => {
+            for line in stdin.lock().lines() {
+                let line = line.unwrap();
+                writeln!(out, "{}", gram::unicode_ranges(&line)).unwrap();
+            }
+        }
         "meta" => {
             for line in stdin.lock().lines() {
                 let line = line.unwrap();
